@@ -26,3 +26,8 @@ func VerifNew(domain string, privkey []byte, transport net.PacketConn) (*Respond
 func (r *Responder) VerifResponseFor(q *dns.Message) (*dns.Message, []byte) {
 	return r.responseFor(q, r.domain)
 }
+
+// VerifCraftResponse exposes craftResponse.
+func (r *Responder) VerifCraftResponse(msg []byte, f func([]byte) ([]byte, error)) ([]byte, error) {
+	return r.craftResponse(msg, f)
+}
